@@ -330,7 +330,7 @@ func (cfg *ChainCfg) chains1(v ssa.Value, depth int, busy map[ssa.Value]bool, bi
 			}
 		}
 		st := Deref(x.X.Type())
-		name := types.TypeString(st, func(*types.Package) string { return "" })
+		name := typeLabel(st)
 		return []Chain{{Leaf{"field", name + "." + fieldName(x.X.Type(), x.Field), Prov(x.X)}}}
 	case *ssa.Alloc:
 		// a fresh *Variables{} literal
@@ -379,7 +379,7 @@ func FieldProv(v ssa.Value) string {
 		}
 	case *ssa.Field:
 		st := Deref(x.X.Type())
-		return types.TypeString(st, func(*types.Package) string { return "" }) + "." + fieldName(x.X.Type(), x.Field)
+		return typeLabel(st) + "." + fieldName(x.X.Type(), x.Field)
 	case *ssa.MakeInterface:
 		return FieldProv(x.X)
 	case *ssa.FieldAddr:
@@ -570,4 +570,12 @@ func (p *Prog) SameDeep(a, b ssa.Value) bool {
 		}
 	}
 	return true
+}
+
+// typeLabel is the unqualified name of t as the rules know it (TypeName for named types of the module).
+func typeLabel(t types.Type) string {
+	if n, ok := t.(*types.Named); ok {
+		return TypeName(n)
+	}
+	return types.TypeString(t, func(*types.Package) string { return "" })
 }
